@@ -1,1 +1,2 @@
+pub mod numeral;
 pub mod refarith;
